@@ -415,12 +415,13 @@ Proof.
       destruct (b_readN_enough b1 _ A1 Hle) as (b2 & bs & E2).
       pose proof (b_readN_bytes _ _ _ _ E2) as Eb. rewrite I1, Nat2N.id, firstn_app_exact in Eb. subst bs.
       destruct (b_readN_ok _ _ _ _ A1 P1 E2) as [Ad2 _]. rewrite E2 in *.
-      assert (Rs : read_signmag tl = Ok c /\ (c =? 0)%Z = nz).
+      assert (Rs : read_signmag tl = Ok c /\ ((128 <=? hd 0 tl) && (c =? 0)%Z) = nz).
       { subst tl. destruct nz.
         - rewrite (Hnz eq_refl). split; reflexivity.
         - assert (Hc : c <> 0%Z).
           { intros ->. cbn in Et. discriminate. }
-          rewrite bigint_roundtrip by exact Hc. split; [reflexivity|lia]. }
+          rewrite bigint_roundtrip by exact Hc. split; [reflexivity|].
+          replace (c =? 0)%Z with false by lia. apply andb_false_r. }
       destruct Rs as [Rs Rz]. rewrite Rs in *. rewrite Rz in *.
       apply (Fin b2); [reflexivity|]. eapply adv_eq; [eapply adv_trans; eauto|lia].
     + assert (Etl : tl = []) by (destruct tl; [reflexivity|cbn [length] in Et; lia]).
